@@ -190,6 +190,9 @@ def check_property(x, p, tag, allow=True):
 
 
 def replay(rep):
+    if rep.get('replay', {}).get('form') == 'routes':
+        from props import _estimators as E_
+        return E_.replay_routes(rep['replay'])
     if rep['replay'].get('protocol') == 'values_only':
         from props import _purity
         return _purity.replay_protocol(rep['replay'])
@@ -248,6 +251,9 @@ def run(ctx):
     from spectrum import aryule, lpc, pyule
     rng = ctx.rng
     ctx.check_theorems('Properties/C12.v')
+    # the estimate an object holds does not depend on the history that gave it its data and settings (every route of _estimators.via)
+    from props import _estimators as E_
+    E_.class_route_stream(ctx, ['pyule'], 'routes')
     # IR programs regenerated from the source vs the hand models: exact, zero tolerance.  aryule and ma are translated WITH their callees
     # (CORRELATION, LEVINSON, aryule: other modules of the package, resolved through the imports) and compared with Model.Yule.aryule / Model.MaEst.ma_est
     loopir_tie(ctx, ['LEVINSON', 'CORRELATION', 'aryule', 'ma'])
